@@ -14,7 +14,7 @@ typedef struct { uint64_t id; uint32_t dst; uint32_t flags; } rec_t;
 static tp_p g_tp;
 static size_t g_pool;
 static rec_t *g_recs; static size_t g_nrecs; static rec_t g_late[64];
-static volatile uint64_t g_cb_count, g_ok_sends, g_senders_done, g_barrier_cnt;
+static volatile uint64_t g_cb_count, g_ok_sends, g_senders_done, g_barrier_cnt, g_ok_sends_late, g_late_cb;
 static sem_t g_gate_sem;
 
 /* ---- fault injection state */
@@ -77,7 +77,7 @@ static void on_stop(tpt_p tpt) {
 
 static void msg_cb(tpt_p tpt, void *udata) {
 	rec_t *r = udata;
-	if (r >= g_late && r < g_late + 64) { TM_LOG(EV_CB, (uint16_t)(tpt == tp_thread_get_pvt(g_tp)), r->id, tpt_get_num(tpt), 0); return; }
+	if (r >= g_late && r < g_late + 64) { TM_LOG(EV_CB, (uint16_t)(tpt == tp_thread_get_pvt(g_tp)), r->id, tpt_get_num(tpt), 0); __atomic_add_fetch(&g_late_cb, 1, __ATOMIC_RELAXED); return; }
 	if (r < g_recs || r >= g_recs + g_nrecs || ((uintptr_t)r - (uintptr_t)g_recs) % sizeof(rec_t)) {
 		TM_LOG(EV_BADARG, 0, (uint64_t)(uintptr_t)udata, 0, 0);
 		return;
@@ -141,7 +141,7 @@ static void pool_sender_cb(tpt_p tpt, void *udata) { sender_t *s = udata; s->sel
 int main(void) {
 	size_t len; uint8_t *c; vout_t o = {0}; vin_t in;
 	uint64_t seed; unsigned pool, start_mode, n_ext, n_pool, nmsgs, flags_fixed, flags_rand, dst_mode, dst_k, pass_src;
-	unsigned gate, gate_dst, wkind, rkind, nw, nr, i, bind;
+	unsigned gate, gate_dst, wkind, rkind, nw, nr, i, bind, shutdown_behind_gate = 0;
 	tp_settings_t s; sender_t *snd; pthread_t *thr; int rc, timeout = 0, fd0, fd1, task0, task1;
 	size_t nsend;
 
@@ -154,7 +154,7 @@ int main(void) {
 	nmsgs = vin_u32(&in); flags_fixed = vin_u8(&in); flags_rand = vin_u8(&in); dst_mode = vin_u8(&in); dst_k = vin_u8(&in);
 	pass_src = vin_u8(&in); bind = vin_u8(&in);
 	tm_perturb_permille = vin_u16(&in); tm_sleep_max_us = vin_u16(&in); tm_point_mask = vin_u64(&in);
-	gate = vin_u8(&in); gate_dst = vin_u8(&in); g_park_in_stop = vin_u8(&in);
+	gate = vin_u8(&in); gate_dst = vin_u8(&in); g_park_in_stop = vin_u8(&in); shutdown_behind_gate = vin_u8(&in);
 	wkind = vin_u8(&in); nw = vin_u16(&in);
 	g_wfault_max = 1u << 20; g_wfault_pos = calloc(g_wfault_max, 1);
 	for (i = 0; i < nw; i++) { uint32_t k = vin_u32(&in); if (k < g_wfault_max) g_wfault_pos[k] = 1; }
@@ -203,6 +203,28 @@ int main(void) {
 	for (i = 0; i < n_ext; i++) pthread_join(thr[i], NULL);
 	if (tm_wait_ge(&g_senders_done, nsend, 60000)) timeout = 1;
 	TM_LOG(EV_PHASE, 3, 0, 0, 0);
+	if (gate && shutdown_behind_gate) {
+		/* the gated worker is still RUNNING and has not read its queue: request the shutdown now, then queue more
+		 * messages behind the stop message.  They are accepted (rc 0), so they must still be delivered. */
+		unsigned k;
+		tp_shutdown(g_tp);
+		for (k = 0; k < 40; k++) {
+			rec_t *r = &g_late[k]; int lrc;
+			r->id = ((uint64_t)0xdd << 32) | k; r->dst = gate_dst; r->flags = 0;
+			TM_LOG(EV_SEND_CALL, 0, r->id, gate_dst, 0);
+			lrc = tpt_msg_send(tp_thread_get(g_tp, gate_dst), NULL, 0, msg_cb, r);
+			TM_LOG(EV_SEND_RET, 0, r->id, gate_dst, lrc);
+			if (lrc == 0) __atomic_add_fetch(&g_ok_sends_late, 1, __ATOMIC_RELAXED);
+		}
+		sem_post(&g_gate_sem);
+		/* bounded wait: the gated worker drains its queue (one read batch) and then stops */
+		tm_wait_ge(&g_late_cb, __atomic_load_n(&g_ok_sends_late, __ATOMIC_RELAXED), 5000);
+		TM_LOG(EV_PHASE, 4, 0, 0, 0);
+		tp_shutdown_wait(g_tp);
+		rc = tp_destroy(g_tp);
+		TM_LOG(EV_PHASE, 5, 0, 0, rc);
+		goto dump;
+	}
 	if (gate) sem_post(&g_gate_sem);
 	/* quiescence: every accepted message has run (bounded progress), then a grace round for duplicates */
 	if (tm_wait_ge(&g_cb_count, __atomic_load_n(&g_ok_sends, __ATOMIC_RELAXED), 60000)) timeout = 1;
@@ -235,6 +257,7 @@ int main(void) {
 	tp_shutdown_wait(g_tp);
 	rc = tp_destroy(g_tp);
 	TM_LOG(EV_PHASE, 5, 0, 0, rc);
+dump:
 	{ struct timespec ts = {0, 2000000}; nanosleep(&ts, NULL); }
 	fd1 = tm_fd_count(); task1 = tm_task_count();
 
